@@ -142,7 +142,7 @@ def Action.isDrop : Action → Bool
   | .drop _ => true
   | _ => false
 
-/-- the guard at the top of `outgoing_crypto` (fix 6f09f78): a cell that is not flagged plaintext is only sent when some
+/-- the guard at the top of `outgoing_crypto` (fix bea4e39): a cell that is not flagged plaintext is only sent when some
     key will be applied — own circuit with at least one hop, or an exit socket / relay entry for the circuit id -/
 def noKeyToSend (nd : Node A) (c : Cell) : Bool :=
   !c.plaintext &&
@@ -359,7 +359,7 @@ inductive Sink
   | otherCommunity      -- endpoint.notify_listeners((origin, data), from_tunnel=True)
   | droppedNoTunnelEndpoint
   | droppedNestedData   -- a cell message inside a returned tunnel-community packet whose id is not registered to arrive
-                        -- through an exit (`exit_msg_ids`, repo fixes 6e0f2ad / 5d1ce5c): refused
+                        -- through an exit (`exit_msg_ids`, repo fixes 93232d0 / 85766ae): refused
   | exitSocket          -- exit_data(...)
   | droppedZeroDest
   deriving DecidableEq, Repr
